@@ -599,3 +599,7 @@ def check(run):
     from . import c10 as _c10
     run.rules_run.append("R01f")
     run.rule(_c10.option_defaults, run, "R01f", {'ignore_constraints': 'False', 'unresolved_types': "'throw'"}, "the default options do not waive the guarantee")
+    # round 8: shared helpers decided as tables (helper_table.py)
+    from . import helper_table as _ht
+    run.rules_run.append("R01g")
+    run.rule(_ht.r_apply, run)
